@@ -34,17 +34,28 @@ def run(ctx):
         single = len(tasks)
         results = list(zip(tasks, pool.map(tasks, chunksize=8)))
         if not ctx.quick:
-            # pairs: the first fault is one that was retried successfully on its own (the request
-            # goes on), the second strikes at every later statement of the faulted run
-            pairs = []
-            for t, res in results:
-                if res['outcome'] == 'success' and res.get('reexecuted') and not res['viol']:
-                    k1, kind1 = t[2][0]
-                    for k2 in range(k1 + 1, res['nstmts_faulted']):
-                        for kind2 in faults.FAULT_KINDS:
-                            pairs.append(('fault', t[1], [(k1, kind1), (k2, kind2)]))
-            results = itertools.chain(results, zip(pairs, pool.map(pairs, chunksize=8)))
-            tasks = tasks + pairs
+            # pairs, then triples: each further fault extends a run whose earlier faults were all
+            # retried successfully (the request goes on), and strikes at every later statement of
+            # that faulted run
+            layer = results
+            for depth in (2, 3):
+                nxt = []
+                for t, res in layer:
+                    if sum(1 for _, kd in t[2] if kd == 'dup-key') >= 2:
+                        # the model of a duplicate key plants the racing creator's row; a second
+                        # planted row may name ids handed out inside the first, rolled-back
+                        # attempt -- not a state a DBMS can reach, so such runs are not extended
+                        continue
+                    if res['outcome'] == 'success' and res.get('reexecuted') and not res['viol']:
+                        k1 = t[2][-1][0]
+                        kinds = faults.FAULT_KINDS if depth == 2 else ('deadlock-stmt', 'dup-key',
+                                                                        'conn')
+                        for k2 in range(k1 + 1, res['nstmts_faulted']):
+                            for kind2 in kinds:
+                                nxt.append(('fault', t[1], list(t[2]) + [(k2, kind2)]))
+                layer = list(zip(nxt, pool.map(nxt, chunksize=8)))
+                results = results + layer
+                tasks = tasks + nxt
         for t, res in results:
             if res['outcome'] == 'not-applicable':
                 continue
@@ -76,8 +87,9 @@ def run(ctx):
                 '%s%s; a case is distinct by (corpus entry, fault kinds, faulted statement, '
                 'outcome) and non-trivial when a fault actually fired' % (
                     len(corpus), list(faults.FAULT_KINDS),
-                    '' if ctx.quick else ' + pairs (first fault = one that was retried successfully on its '
-                    'own, second fault of every kind at every later statement of the faulted run)'),
+                    '' if ctx.quick else ' + pairs and triples (every further fault extends a run whose '
+                    'earlier faults were retried successfully and strikes at every later statement '
+                    'of that faulted run; third faults: deadlock-stmt, dup-key, conn)'),
         'samples': samples or [{'note': 'no retried run sampled'}],
         'corpus': [{'name': e['name'], 'statements': b['nstmts'], 'transactions': b['ntx'],
                     'fault_free_status': b['status']} for e, b in zip(corpus, bl)],
